@@ -482,7 +482,9 @@ bool AnalyserInternalEquation::check(const AnalyserModelPtr &model,
         // on our unknown variables or we will end up in a circular dependency.
 
         for (const auto &unknownVariable : mUnknownVariables) {
-            auto it = std::find(mDependencies.begin(), mDependencies.end(), unknownVariable->mVariable);
+            auto it = std::find_if(mDependencies.begin(), mDependencies.end(), [=](const auto &dependency) {
+                return model->areEquivalentVariables(dependency, unknownVariable->mVariable);
+            });
 
             if (it != mDependencies.end()) {
                 mDependencies.erase(it);
@@ -3232,7 +3234,12 @@ void Analyser::AnalyserImpl::analyseModel(const ModelPtr &model)
         AnalyserEquationPtrs equationDependencies;
 
         for (const auto &variableDependency : variableDependencies) {
-            auto variable = v2avMappings[variableDependency];
+            // Note: a dependency was recorded as the variable that its internal
+            //       variable was tracking at the time, which may since have been
+            //       replaced by an equivalent variable, so look it up through its
+            //       internal variable.
+
+            auto variable = aiv2avMappings[internalVariable(variableDependency)];
 
             if (variable != nullptr) {
                 for (const auto &equation : variable->equations()) {
